@@ -87,7 +87,7 @@ pub fn run(args: &Args) {
                     };
                     let mut out = Vec::new();
                     let n_written = r.write_bytes(&mut out).unwrap();
-                    assert_eq!(n_written, out.len());
+                    assert_eq!(n_written, out.len(), "AnnounceResponse::write_bytes returned a count different from the bytes it wrote (the tracker frames the reply with that count)");
                     parse_back(&out);
                     let p4t: Vec<String> = p4.iter().map(|p| format!("({}, {})", cq::hex(&p.ip_address.octets()), cq::n(p.port))).collect();
                     let p6t: Vec<String> = p6.iter().map(|p| format!("({}, {})", cq::hex(&p.ip_address.octets()), cq::n(p.port))).collect();
@@ -114,7 +114,8 @@ pub fn run(args: &Args) {
                     }
                     let r = ScrapeResponse { files: files.clone() };
                     let mut out = Vec::new();
-                    r.write_bytes(&mut out).unwrap();
+                    let n_written = r.write_bytes(&mut out).unwrap();
+                    assert_eq!(n_written, out.len(), "ScrapeResponse::write_bytes returned a count different from the bytes it wrote");
                     parse_back(&out);
                     let ft: Vec<String> = files
                         .iter()
@@ -130,7 +131,8 @@ pub fn run(args: &Args) {
                     let reason: &str = if rng.chance(1, 2) { &long } else { *rng.pick(&["Info hash not allowed", "", "x", "f\u{e4}il \u{1F600}"]) };
                     let r = FailureResponse::new(reason.to_string());
                     let mut out = Vec::new();
-                    r.write_bytes(&mut out).unwrap();
+                    let n_written = r.write_bytes(&mut out).unwrap();
+                    assert_eq!(n_written, out.len(), "FailureResponse::write_bytes returned a count different from the bytes it wrote");
                     parse_back(&out);
                     items.push(format!("RFail {} {}", cq::hex(reason.as_bytes()), cq::hex(&out)));
                 }
